@@ -1,6 +1,6 @@
 SPECIFICATION Spec
 CONSTANTS Objs = {"o1", "o2", "o3"}
- OpNames = {"contains", "to_mask", "area", "bounding_box", "convert", "rotate", "copy", "combine", "as_artist", "serialize_ds9", "serialize_crtf", "serialize_fits", "write", "parse", "slice", "mask_apply", "parse_foreign"}
+ OpNames = {"contains", "to_mask", "area", "bounding_box", "convert", "rotate", "copy", "combine", "as_artist", "serialize_ds9", "serialize_crtf", "serialize_fits", "write", "parse", "slice", "mask_apply", "parse_foreign", "reread"}
  MaxLen = 30
 VIEW View
 INVARIANT ModuleStateConstant
